@@ -1191,6 +1191,10 @@ func g07Call(c *h.Ctx, l *g07Live, k *g07Rec, rootReads, searches, conns *int) {
 			switch {
 			case (err != nil) != w.Err:
 				drift("error:"+a.Branch, fmt.Sprintf("domain %q RID %d: spec error=%v, code err=%v", a.Name, a.Rid, w.Err, err))
+			case err == nil && got != "" && len(w.Sid) > 0 && got != string(w.Sid):
+				// a SID text was reported, and it is not the text of the objectSid of the one entry this directory holds for the
+				// request (nothing the directory returned in this call carries it: a value remembered from elsewhere)
+				fail("sid-text:"+a.Branch+":not-this-directory's-entry", fmt.Sprintf("domain %q RID %d: the entry this directory holds has the SID text %q; the method returned %q", a.Name, a.Rid, w.Sid, got))
 			case got != string(w.Sid):
 				drift("result:"+a.Branch, fmt.Sprintf("domain %q RID %d: spec %q, code %q", a.Name, a.Rid, w.Sid, got))
 			}
